@@ -137,15 +137,17 @@ def run(world, rep, tier, only=None):
     NEED = ["s_feature_compat", "s_feature_incompat", "s_feature_ro_compat", "s_blocks_count", "s_blocks_count_hi",
             "s_inodes_count", "s_uuid"]
     cmpf = set()
-    for b in cb.blocks:
-        lit = cb.literal(b)
-        if lit:
-            a = T.strip(lit[0])
-            if isinstance(a, dict) and (a.get("k") == "b" and a.get("o") == "==" or a.get("k") == "c"):
+    from vlib import width as _w
+    # comparisons wherever they are written: branch conditions, or operands of a value that is returned /
+    # stored (`return a != b || memcmp(...)` in a helper)
+    for _line, e in _w._exprs_of(cb):
+        for a in T.walk(e):
+            if not isinstance(a, dict):
+                continue
+            if (a.get("k") == "b" and a.get("o") in ("==", "!=")) or (a.get("k") == "c" and a.get("fn") in ("memcmp", "uuid_compare")):
                 fl_ = [f for f in T.fields(a) if f[0] == "ext2_super_block"]
-                # both sides: the live superblock and the backup copy
                 roots = {T.path(x) for x in T.walk(a) if x.get("k") == "m" and x.get("r") == "ext2_super_block"}
-                if len([r for r in roots if r]) >= 2 or a.get("k") == "c":
+                if len([r for r in roots if r]) >= 2:
                     cmpf |= {f[1] for f in fl_}
     for f in NEED:
         rep.ob("C20.b", site(cb, "compares %s" % f), f in cmpf, "primary and backup %s are compared" % f)
@@ -157,12 +159,10 @@ def run(world, rep, tier, only=None):
                    "EXT4_FEATURE_RO_COMPAT_ORPHAN_PRESENT", "EXT3_FEATURE_INCOMPAT_EXTENTS", "EXT3_FEATURE_INCOMPAT_RECOVER",
                    "EXT4_FEATURE_RO_COMPAT_HUGE_FILE"}
     ign = set()
-    for b in cb.blocks:
-        lit = cb.literal(b)
-        if lit:
-            for x in T.walk(lit[0]):
-                if x.get("k") == "u" and x.get("o") == "~":
-                    ign |= {m for m in T.macros(x["e"]) if "_FEATURE_" in m and "IGNORE" not in m}
+    for _line, e in _w._exprs_of(cb):
+        for x in T.walk(e):
+            if isinstance(x, dict) and x.get("k") == "u" and x.get("o") == "~" and {f for f in T.fields(e) if f[0] == "ext2_super_block"}:
+                ign |= {m for m in T.macros(x["e"]) if "_FEATURE_" in m and "IGNORE" not in m}
     rep.ob("C20.b", site(cb, "ignore masks contain only run-time feature bits"), ign <= ALLOWED_IGN and bool(ign),
            "ignored bits: %s" % sorted(ign))
     # it reads a real backup: the block comes from ext2fs_group_first_block2 of a group with ext2fs_bg_has_super
